@@ -457,6 +457,44 @@ func c13Run(s *Shard) {
 			}
 		}
 	}
+	// nobody is considered but a known current choice is given: the search order is that one alternative
+	for _, cc := range []string{"a", "b", "c"} {
+		for _, ths := range []L{{M{"c1": 9.0, "c2": 9.0, "c3": 9.0}, M{"c1": 0.5, "c2": 9.0, "c3": 0.5}}, {M{"c1": 9.0, "c2": 0.0, "c3": 9.0}}} {
+			if !s.Take() {
+				continue
+			}
+			r := rootRequest("satisfactionHeuristic", false, false)
+			r["choseToMake"] = L{}
+			r = withMP(r, M{"function": "thresholds", "params": M{"thresholds": ths}, "currentChoice": cc})
+			c := &Case{Prop: "C13", Kind: "satisfaction", Req: r}
+			s.Evals++
+			s.Begin(c)
+			s.Report(c13Check(c))
+		}
+	}
+	// ids that are related: an alternative id followed by a separator and the head of a criterion id spells another
+	// alternative id (a + sep + x|y  ==  a|x + sep + y); the two alternatives differ on exactly those criteria
+	for _, sep := range []string{"_", "", "-", ":", "."} {
+		for _, order := range [][]int{{0, 1, 2}, {1, 0, 2}, {2, 1, 0}} {
+			if !s.Take() {
+				continue
+			}
+			alts := []string{"a", "a" + sep + "x", "b"}
+			vals := [][]float64{{5, 5}, {5, 0}, {0, 5}}
+			cids := []string{"x" + sep + "y", "y"}
+			var la []string
+			var lv [][]float64
+			for _, o := range order {
+				la, lv = append(la, alts[o]), append(lv, vals[o])
+			}
+			r := genericRequest("satisfactionHeuristic", cids, -1, la, lv, la, []float64{1, 1})
+			r = withMP(r, M{"function": "thresholds", "params": M{"thresholds": L{M{cids[0]: 2.0, cids[1]: 2.0}, M{cids[0]: 1.0, cids[1]: -1.0}}}})
+			c := &Case{Prop: "C13", Kind: "satisfaction", Req: r}
+			s.Evals++
+			s.Begin(c)
+			s.Report(c13Check(c))
+		}
+	}
 	satLong(s, "C13", func(c *Case) {
 		s.Evals++
 		s.Begin(c)
